@@ -48,10 +48,20 @@ Orders == {"fwd", "rev"}
 AllPos == ref.fwd.pos \cup ref.rev.pos
 NPanics(es) == Cardinality({i \in 1..Len(es) : es[i].c = "panic"})
 
+\* A value whose marshaler panics while the response is being serialized
+\* (user code: the custom scalar Boom with value "panic") cannot be part of a
+\* response: C04 demands that only that response fails, with a well-formed
+\* error body, one more recover-hook call, and a live process.
+RECURSIVE HasMarshalPanic(_)
+HasMarshalPanic(d) ==
+  IF d.t = "o" THEN \E i \in 1..Len(d.f) : HasMarshalPanic(d.f[i].v)
+  ELSE IF d.t = "l" THEN \E i \in 1..Len(d.e) : HasMarshalPanic(d.e[i])
+  ELSE d.t = "s" /\ d.v = "panic"
+
 GInit ==
   /\ sc = [op |-> [kind |-> "query", sels |-> <<>>, frags |-> <<>>], plan |-> <<>>, dirplan |-> <<>>]
-  /\ ref = [fwd |-> [d |-> Null, isnull |-> FALSE, errs |-> <<>>, pos |-> {}],
-            rev |-> [d |-> Null, isnull |-> FALSE, errs |-> <<>>, pos |-> {}], roots |-> <<>>]
+  /\ ref = [fwd |-> [d |-> Null, isnull |-> FALSE, errs |-> <<>>, pos |-> {}, dinfo |-> {}],
+            rev |-> [d |-> Null, isnull |-> FALSE, errs |-> <<>>, pos |-> {}, dinfo |-> {}], roots |-> <<>>]
   /\ started = {} /\ ended = {} /\ errs = <<>> /\ recovers = 0 /\ phase = "idle"
 
 Load(s) ==
@@ -95,16 +105,6 @@ Recover ==
   /\ \E o \in Orders : recovers + 1 <= NPanics(ref[o].errs) + (IF HasMarshalPanic(ref[o].d) THEN 1 ELSE 0)
   /\ recovers' = recovers + 1
   /\ UNCHANGED <<sc, ref, started, ended, errs, phase>>
-
-\* A value whose marshaler panics while the response is being serialized
-\* (user code: the custom scalar Boom with value "panic") cannot be part of a
-\* response: C04 demands that only that response fails, with a well-formed
-\* error body, one more recover-hook call, and a live process.
-RECURSIVE HasMarshalPanic(_)
-HasMarshalPanic(d) ==
-  IF d.t = "o" THEN \E i \in 1..Len(d.f) : HasMarshalPanic(d.f[i].v)
-  ELSE IF d.t = "l" THEN \E i \in 1..Len(d.e) : HasMarshalPanic(d.e[i])
-  ELSE d.t = "s" /\ d.v = "panic"
 
 RespondSerializationFailure(data, rerrs) ==
   /\ phase = "running"
